@@ -137,7 +137,7 @@ class Meta:
         if base == 'status':
             return gen.pick(rng, [0, 1, True, False, 1.0])
         if base == 'flag':
-            return gen.pick(rng, [0, 1, True, False, 'yes', 'N', 'true'])
+            return gen.pick(rng, [0, 1, True, False])
         if base == 'ref':
             r = self.some(arg, 1, 1)
             return r[0] if r else None
